@@ -42,6 +42,10 @@ class ExprMixin(CallMixin):
         return STRUCT
 
     def iterate(self, v: Val, node: ast.AST) -> None:
+        for cv in [c for c in v.calls if c.kind == "lazy"]:
+            xs = cv.env["#xs"]
+            self.iterate(xs, node)
+            self.call_val(Val(calls=FS(c for c in cv.env["#f"].calls), kinds=cv.env["#f"].kinds), [self.elem_of(xs)], {}, node)
         if v.dynamic and v.elem is None:
             for e in eff_iter([v.kinds]):
                 self.raise_(e, f"iterating a value that may not be iterable at {self.cv.label()}:{getattr(node, 'lineno', 0)}")
